@@ -717,12 +717,166 @@ theorem createLoopBody_code (cid : Nat) (cat : Option Str) (names : List Name) (
     | error c' => rw [hadd] at hcode; simp only [] at hcode ⊢; exact Or.inr ⟨hic, hcode.2, hcode.1⟩
     | ok d2 => rw [hadd] at hcode; simp only [] at hcode ⊢; exact ⟨hic, hcode⟩
 
+/-- cif_container_create_loop_internal (any name list, the empty one included: cif_container_add_scalar) on an existing container
+    commutes with `absS` and returns the documented model's code -/
+theorem createLoopInternal_spec (s : Store) (hd : CH) (cat : Option Str) (names : List Name) (hg : Good s.db) (hv : hd.validB s.db = true) :
+    absS (createLoopInternal s hd cat names).1.db = (specCreateLoopI (absS s.db) hd cat names).1 ∧
+    (createLoopInternal s hd cat names).2 = (specCreateLoopI (absS s.db) hd cat names).2 := by
+  have hinv := hg.inv
+  have hc : s.db.hasContainer hd.id = true := hv
+  unfold specCreateLoopI
+  have hres : (createLoopInternal s hd cat names).2 = (createLoopBody hd.id cat names s.db).map Prod.snd := nest_snd s _
+  have hscal : (absS s.db).loops.any (fun y => y.cid == hd.id && y.category == some []) =
+      s.db.loops.any (fun l => l.cid == hd.id && l.category == some []) := by
+    show (s.db.loops.map (absALoop s.db)).any _ = _
+    rw [List.any_map]; rfl
+  have hcont : (absS s.db).containers = s.db.containers := rfl
+  rw [hscal, hcont, namesFresh_absS s.db hinv]
+  obtain ⟨c0, hc0, hc0id⟩ := (hasContainer_iff _ _).mp hc
+  have hcode := createLoopBody_code hd.id cat names s.db hinv hc
+  cases hb : createLoopBody hd.id cat names s.db with
+  | error c =>
+    rw [hb] at hcode
+    simp only [] at hcode
+    have hcode2 : (createLoopInternal s hd cat names).2 = .error c := by rw [hres, hb]; rfl
+    have hdb : (createLoopInternal s hd cat names).1.db = s.db := (nest_error s _ _ hcode2).1
+    rcases hcode with ⟨h1, h2⟩ | ⟨h1, h2, h3⟩
+    · simp only [h1, if_true]
+      exact ⟨by rw [hdb], by rw [hcode2, h2]⟩
+    · simp only [h1, Bool.false_eq_true, if_false, h2, Bool.not_false, if_true]
+      cases hfc : s.db.containers.find? (fun c => c.id == hd.id) with
+      | none =>
+        have := List.find?_eq_none.mp hfc c0 hc0
+        simp [hc0id] at this
+      | some cc => exact ⟨by rw [hdb], by rw [hcode2, h3]⟩
+  | ok r =>
+    obtain ⟨d2, l⟩ := r
+    rw [hb] at hcode
+    simp only [] at hcode
+    obtain ⟨h1, h2⟩ := hcode
+    simp only [h1, Bool.false_eq_true, if_false, h2, Bool.not_true]
+    have hcode2 : (createLoopInternal s hd cat names).2 = .ok l := by rw [hres, hb]; rfl
+    have hdb : (createLoopInternal s hd cat names).1.db = d2 := nest_db_ok s _ d2 l hb
+    -- the shape of the new state
+    unfold createLoopBody at hb
+    cases hins : s.db.insertLoopUnnumbered hd.id cat with
+    | error m => rw [hins] at hb; simp only [] at hb; split at hb <;> cases hb
+    | ok d1 =>
+      rw [hins] at hb
+      simp only [] at hb
+      obtain ⟨c, hcm, hcid, hln, hfresh, l1, i1, v1, f1, b1⟩ := insertLoop_maxLoopNum s.db d1 hd.id cat hinv hins
+      have hcon1 : d1.containers = s.db.containers.map (fun r => if r.id == hd.id then { r with nextLoopNum := r.nextLoopNum + 1 } else r) ∧
+          d1.nextId = s.db.nextId := by
+        unfold Db.insertLoopUnnumbered at hins
+        split at hins; · cases hins
+        split at hins; · cases hins
+        split at hins; · cases hins
+        cases hins; exact ⟨rfl, rfl⟩
+      have hfc : s.db.containers.find? (fun c => c.id == hd.id) = some c := by
+        cases hf : s.db.containers.find? (fun c => c.id == hd.id) with
+        | none =>
+          have := List.find?_eq_none.mp hf c hcm
+          simp [hcid] at this
+        | some c' =>
+          have hm' := List.mem_of_find?_eq_some hf
+          have hk' := List.find?_some hf
+          simp at hk'
+          rw [container_unique s.db.containers hinv.ext.containerPK c' hm' c hcm (by rw [hk', hcid])]
+      rw [hfc]
+      simp only []
+      cases hadd : addItems d1 hd.id (d1.maxLoopNum hd.id) names with
+      | error c' => rw [hadd] at hb; cases hb
+      | ok d2' =>
+        rw [hadd] at hb
+        simp only [Except.ok.injEq, Prod.mk.injEq] at hb
+        obtain ⟨hd2, hl'⟩ := hb
+        subst hd2
+        rw [hln] at hadd hl'
+        obtain ⟨i2, l2, v2, f2, b2, c2, hnew⟩ := addItems_spec names d1 d2' hd.id c.nextLoopNum hadd
+        rw [i1] at i2; rw [l1] at l2; rw [v1] at v2
+        have hnew' : ∀ n ∈ names, s.db.hasItem hd.id n.key = false := by
+          intro n hn; have := hnew n hn; simpa only [Db.hasItem, i1] using this
+        refine ⟨?_, by rw [hcode2, ← hl']⟩
+        rw [hdb]
+        -- old loops keep their items and their packets
+        have hold : ∀ x ∈ s.db.loops, absALoop d2' x = absALoop s.db x := by
+          intro x hx
+          have hit : d2'.loopItems x.cid x.loopNum = s.db.loopItems x.cid x.loopNum := by
+            unfold Db.loopItems
+            rw [i2, List.filter_append]
+            have : (names.map (fun n => ({ cid := hd.id, name := n.key, nameOrig := n.orig, loopNum := c.nextLoopNum } : ItemRow))).filter
+                (fun i => i.cid == x.cid && i.loopNum == x.loopNum) = [] := by
+              rw [List.filter_eq_nil_iff]
+              intro i hi hk
+              obtain ⟨n, _, rfl⟩ := List.mem_map.mp hi
+              simp at hk
+              have := (hasLoop_iff s.db _ _).mpr ⟨x, hx, hk.1.symm, hk.2.symm⟩
+              rw [hfresh] at this; cases this
+            rw [this, List.append_nil]
+          unfold absALoop
+          rw [hit]
+          congr 1
+          simp only [absLoop, Db.loopRows, hit, v2]
+        -- the new loop: the given items, no packet
+        have hnewloop : absALoop d2' { cid := hd.id, loopNum := c.nextLoopNum, category := cat, lastRowNum := 0 } =
+            { cid := hd.id, num := c.nextLoopNum, category := cat, items := names.map (fun n => (n.key, n.orig)), packets := [] } := by
+          have hit : d2'.loopItems hd.id c.nextLoopNum = names.map (fun n => ({ cid := hd.id, name := n.key, nameOrig := n.orig, loopNum := c.nextLoopNum } : ItemRow)) := by
+            unfold Db.loopItems
+            rw [i2, List.filter_append]
+            have h0 : s.db.items.filter (fun i => i.cid == hd.id && i.loopNum == c.nextLoopNum) = [] := by
+              rw [List.filter_eq_nil_iff]
+              intro i hi hk
+              simp at hk
+              have := hinv.itemFK i hi
+              rw [hk.1, hk.2, hfresh] at this; cases this
+            rw [h0, List.nil_append, List.filter_eq_self]
+            intro i hi
+            obtain ⟨n, _, rfl⟩ := List.mem_map.mp hi
+            simp
+          have hrows : d2'.loopRows hd.id c.nextLoopNum = [] := by
+            unfold Db.loopRows
+            rw [hit, v2]
+            have : s.db.values.filter (fun v => v.cid == hd.id && (names.map (fun n => ({ cid := hd.id, name := n.key, nameOrig := n.orig, loopNum := c.nextLoopNum } : ItemRow))).any (fun i => i.name == v.name)) = [] := by
+              rw [List.filter_eq_nil_iff]
+              intro v hvm hk
+              simp only [Bool.and_eq_true, List.any_map, List.any_eq_true, Function.comp] at hk
+              obtain ⟨hvc, n, hn, hnk⟩ := hk
+              have h1' := hinv.valueFK v hvm
+              have hvc' : v.cid = hd.id := by simpa using hvc
+              have hnk' : n.key = v.name := by simpa using hnk
+              rw [hvc', ← hnk', hnew' n hn] at h1'; cases h1'
+            rw [this]; rfl
+          unfold absALoop
+          simp only [hit, List.map_map]
+          congr 1
+          simp only [absLoop, hrows, List.map_nil]
+        show ({ containers := d2'.containers, blocks := d2'.blocks, frames := d2'.frames, nextId := d2'.nextId,
+                loops := d2'.loops.map (absALoop d2') } : AState) = _
+        have hnx : d2'.nextId = s.db.nextId := by
+          have : ∀ (ns : List Name) (a b : Db) (c n : Nat), addItems a c n ns = .ok b → b.nextId = a.nextId := by
+            intro ns
+            induction ns with
+            | nil => intro a b c n h; simp [addItems] at h; subst h; rfl
+            | cons e es ih =>
+              intro a b c n h
+              unfold addItems at h
+              split at h; · cases h
+              rename_i a1 hins'
+              have := ih a1 b c n h
+              unfold Db.insertItem at hins'
+              split at hins'; · cases hins'
+              split at hins'; · cases hins'
+              cases hins'; exact this
+          rw [this names d1 d2' _ _ hadd, hcon1.2]
+        rw [c2, hcon1.1, b2, b1, f2, f1, hnx, l2, List.map_append, List.map_cons, List.map_nil, hnewloop]
+        have : s.db.loops.map (absALoop d2') = s.db.loops.map (absALoop s.db) := List.map_congr_left hold
+        rw [this]
+        rfl
+
 /-- cif_container_create_loop on an existing container commutes with `absS` and returns the documented model's code -/
 theorem createLoop_spec (s : Store) (hd : CH) (cat : Option Str) (names : List Name) (hg : Good s.db) (hv : hd.validB s.db = true) :
     absS (createLoop s hd cat names).1.db = (specCreateLoop (absS s.db) hd cat names).1 ∧
     (createLoop s hd cat names).2 = (specCreateLoop (absS s.db) hd cat names).2 := by
-  have hinv := hg.inv
-  have hc : s.db.hasContainer hd.id = true := hv
   unfold createLoop specCreateLoop
   cases hne : names.isEmpty with
   | true => simp
@@ -732,153 +886,7 @@ theorem createLoop_spec (s : Store) (hd : CH) (cat : Option Str) (names : List N
     | true => simp
     | false =>
       simp only [Bool.false_eq_true, if_false]
-      have hres : (createLoopInternal s hd cat names).2 = (createLoopBody hd.id cat names s.db).map Prod.snd := nest_snd s _
-      have hscal : (absS s.db).loops.any (fun y => y.cid == hd.id && y.category == some []) =
-          s.db.loops.any (fun l => l.cid == hd.id && l.category == some []) := by
-        show (s.db.loops.map (absALoop s.db)).any _ = _
-        rw [List.any_map]; rfl
-      have hcont : (absS s.db).containers = s.db.containers := rfl
-      rw [hscal, hcont, namesFresh_absS s.db hinv]
-      obtain ⟨c0, hc0, hc0id⟩ := (hasContainer_iff _ _).mp hc
-      have hcode := createLoopBody_code hd.id cat names s.db hinv hc
-      cases hb : createLoopBody hd.id cat names s.db with
-      | error c =>
-        rw [hb] at hcode
-        simp only [] at hcode
-        have hcode2 : (createLoopInternal s hd cat names).2 = .error c := by rw [hres, hb]; rfl
-        have hdb : (createLoopInternal s hd cat names).1.db = s.db := (nest_error s _ _ hcode2).1
-        rcases hcode with ⟨h1, h2⟩ | ⟨h1, h2, h3⟩
-        · simp only [h1, if_true]
-          exact ⟨by rw [hdb], by rw [hcode2, h2]⟩
-        · simp only [h1, Bool.false_eq_true, if_false, h2, Bool.not_false, if_true]
-          cases hfc : s.db.containers.find? (fun c => c.id == hd.id) with
-          | none =>
-            have := List.find?_eq_none.mp hfc c0 hc0
-            simp [hc0id] at this
-          | some cc => exact ⟨by rw [hdb], by rw [hcode2, h3]⟩
-      | ok r =>
-        obtain ⟨d2, l⟩ := r
-        rw [hb] at hcode
-        simp only [] at hcode
-        obtain ⟨h1, h2⟩ := hcode
-        simp only [h1, Bool.false_eq_true, if_false, h2, Bool.not_true]
-        have hcode2 : (createLoopInternal s hd cat names).2 = .ok l := by rw [hres, hb]; rfl
-        have hdb : (createLoopInternal s hd cat names).1.db = d2 := nest_db_ok s _ d2 l hb
-        -- the shape of the new state
-        unfold createLoopBody at hb
-        cases hins : s.db.insertLoopUnnumbered hd.id cat with
-        | error m => rw [hins] at hb; simp only [] at hb; split at hb <;> cases hb
-        | ok d1 =>
-          rw [hins] at hb
-          simp only [] at hb
-          obtain ⟨c, hcm, hcid, hln, hfresh, l1, i1, v1, f1, b1⟩ := insertLoop_maxLoopNum s.db d1 hd.id cat hinv hins
-          have hcon1 : d1.containers = s.db.containers.map (fun r => if r.id == hd.id then { r with nextLoopNum := r.nextLoopNum + 1 } else r) ∧
-              d1.nextId = s.db.nextId := by
-            unfold Db.insertLoopUnnumbered at hins
-            split at hins; · cases hins
-            split at hins; · cases hins
-            split at hins; · cases hins
-            cases hins; exact ⟨rfl, rfl⟩
-          have hfc : s.db.containers.find? (fun c => c.id == hd.id) = some c := by
-            cases hf : s.db.containers.find? (fun c => c.id == hd.id) with
-            | none =>
-              have := List.find?_eq_none.mp hf c hcm
-              simp [hcid] at this
-            | some c' =>
-              have hm' := List.mem_of_find?_eq_some hf
-              have hk' := List.find?_some hf
-              simp at hk'
-              rw [container_unique s.db.containers hinv.ext.containerPK c' hm' c hcm (by rw [hk', hcid])]
-          rw [hfc]
-          simp only []
-          cases hadd : addItems d1 hd.id (d1.maxLoopNum hd.id) names with
-          | error c' => rw [hadd] at hb; cases hb
-          | ok d2' =>
-            rw [hadd] at hb
-            simp only [Except.ok.injEq, Prod.mk.injEq] at hb
-            obtain ⟨hd2, hl'⟩ := hb
-            subst hd2
-            rw [hln] at hadd hl'
-            obtain ⟨i2, l2, v2, f2, b2, c2, hnew⟩ := addItems_spec names d1 d2' hd.id c.nextLoopNum hadd
-            rw [i1] at i2; rw [l1] at l2; rw [v1] at v2
-            have hnew' : ∀ n ∈ names, s.db.hasItem hd.id n.key = false := by
-              intro n hn; have := hnew n hn; simpa only [Db.hasItem, i1] using this
-            refine ⟨?_, by rw [hcode2, ← hl']⟩
-            rw [hdb]
-            -- old loops keep their items and their packets
-            have hold : ∀ x ∈ s.db.loops, absALoop d2' x = absALoop s.db x := by
-              intro x hx
-              have hit : d2'.loopItems x.cid x.loopNum = s.db.loopItems x.cid x.loopNum := by
-                unfold Db.loopItems
-                rw [i2, List.filter_append]
-                have : (names.map (fun n => ({ cid := hd.id, name := n.key, nameOrig := n.orig, loopNum := c.nextLoopNum } : ItemRow))).filter
-                    (fun i => i.cid == x.cid && i.loopNum == x.loopNum) = [] := by
-                  rw [List.filter_eq_nil_iff]
-                  intro i hi hk
-                  obtain ⟨n, _, rfl⟩ := List.mem_map.mp hi
-                  simp at hk
-                  have := (hasLoop_iff s.db _ _).mpr ⟨x, hx, hk.1.symm, hk.2.symm⟩
-                  rw [hfresh] at this; cases this
-                rw [this, List.append_nil]
-              unfold absALoop
-              rw [hit]
-              congr 1
-              simp only [absLoop, Db.loopRows, hit, v2]
-            -- the new loop: the given items, no packet
-            have hnewloop : absALoop d2' { cid := hd.id, loopNum := c.nextLoopNum, category := cat, lastRowNum := 0 } =
-                { cid := hd.id, num := c.nextLoopNum, category := cat, items := names.map (fun n => (n.key, n.orig)), packets := [] } := by
-              have hit : d2'.loopItems hd.id c.nextLoopNum = names.map (fun n => ({ cid := hd.id, name := n.key, nameOrig := n.orig, loopNum := c.nextLoopNum } : ItemRow)) := by
-                unfold Db.loopItems
-                rw [i2, List.filter_append]
-                have h0 : s.db.items.filter (fun i => i.cid == hd.id && i.loopNum == c.nextLoopNum) = [] := by
-                  rw [List.filter_eq_nil_iff]
-                  intro i hi hk
-                  simp at hk
-                  have := hinv.itemFK i hi
-                  rw [hk.1, hk.2, hfresh] at this; cases this
-                rw [h0, List.nil_append, List.filter_eq_self]
-                intro i hi
-                obtain ⟨n, _, rfl⟩ := List.mem_map.mp hi
-                simp
-              have hrows : d2'.loopRows hd.id c.nextLoopNum = [] := by
-                unfold Db.loopRows
-                rw [hit, v2]
-                have : s.db.values.filter (fun v => v.cid == hd.id && (names.map (fun n => ({ cid := hd.id, name := n.key, nameOrig := n.orig, loopNum := c.nextLoopNum } : ItemRow))).any (fun i => i.name == v.name)) = [] := by
-                  rw [List.filter_eq_nil_iff]
-                  intro v hvm hk
-                  simp only [Bool.and_eq_true, List.any_map, List.any_eq_true, Function.comp] at hk
-                  obtain ⟨hvc, n, hn, hnk⟩ := hk
-                  have h1' := hinv.valueFK v hvm
-                  have hvc' : v.cid = hd.id := by simpa using hvc
-                  have hnk' : n.key = v.name := by simpa using hnk
-                  rw [hvc', ← hnk', hnew' n hn] at h1'; cases h1'
-                rw [this]; rfl
-              unfold absALoop
-              simp only [hit, List.map_map]
-              congr 1
-              simp only [absLoop, hrows, List.map_nil]
-            show ({ containers := d2'.containers, blocks := d2'.blocks, frames := d2'.frames, nextId := d2'.nextId,
-                    loops := d2'.loops.map (absALoop d2') } : AState) = _
-            have hnx : d2'.nextId = s.db.nextId := by
-              have : ∀ (ns : List Name) (a b : Db) (c n : Nat), addItems a c n ns = .ok b → b.nextId = a.nextId := by
-                intro ns
-                induction ns with
-                | nil => intro a b c n h; simp [addItems] at h; subst h; rfl
-                | cons e es ih =>
-                  intro a b c n h
-                  unfold addItems at h
-                  split at h; · cases h
-                  rename_i a1 hins'
-                  have := ih a1 b c n h
-                  unfold Db.insertItem at hins'
-                  split at hins'; · cases hins'
-                  split at hins'; · cases hins'
-                  cases hins'; exact this
-              rw [this names d1 d2' _ _ hadd, hcon1.2]
-            rw [c2, hcon1.1, b2, b1, f2, f1, hnx, l2, List.map_append, List.map_cons, List.map_nil, hnewloop]
-            have : s.db.loops.map (absALoop d2') = s.db.loops.map (absALoop s.db) := List.map_congr_left hold
-            rw [this]
-            rfl
+      exact createLoopInternal_spec s hd cat names hg hv
 
 theorem setAllValues_tables (d : Db) (cid : Nat) (k : Str) (v : V) :
     (d.setAllValues cid k v).1.items = d.items ∧ (d.setAllValues cid k v).1.loops = d.loops ∧
@@ -1333,450 +1341,5 @@ theorem validB_of_mem (d : Db) (hinv : Inv d) (x : LoopRow) (hx : x ∈ d.loops)
   rw [hc] at this
   rw [this]
   simp
-
--- ---- worlds ------------------------------------------------------------------------------------------------------------------------------
-
-open World in
-theorem liveC_absW (w : World) (c : Nat) : (absW w).liveC c = (w.liveC c).map (fun s => absS s.db) := by
-  unfold AWorld.liveC liveC absW
-  simp only [List.getD, List.getElem?_map]
-  cases w.cifs[c]? with
-  | none => rfl
-  | some x => cases x <;> rfl
-
-open World in
-theorem liveH_absW (w : World) (h : Nat) : (absW w).liveH h = (w.liveH h).map (fun p => (p.1, absS p.2.db)) := by
-  unfold AWorld.liveH liveH
-  show (match w.chs.getD h none with | none => none | some e => ((absW w).liveC e.cif).map (fun s => (e, s))) = _
-  cases w.chs.getD h none with
-  | none => rfl
-  | some e =>
-    simp only [liveC_absW]
-    cases w.liveC e.cif <;> rfl
-
-open World in
-theorem liveL_absW (w : World) (l : Nat) : (absW w).liveL l = (w.liveL l).map (fun p => (p.1, absS p.2.db)) := by
-  unfold AWorld.liveL liveL
-  show (match w.lhs.getD l none with
-        | none => none
-        | some e => match (absW w).liveH e.ch with
-          | none => none
-          | some _ => ((absW w).liveC e.cif).map (fun s => (e, s))) = _
-  cases w.lhs.getD l none with
-  | none => rfl
-  | some e =>
-    simp only [liveH_absW, liveC_absW]
-    cases w.liveH e.ch with
-    | none => rfl
-    | some p => cases w.liveC e.cif <;> rfl
-
-open World in
-theorem absW_setCif (w : World) (c : Nat) (s1 : Store) : (absW (w.setCif c s1)).cifs = ((absW w).setCif c (absS s1.db)).cifs := by
-  unfold absW setCif AWorld.setCif
-  simp only [List.map_set]
-  rfl
-
-open World in
-/-- `C04_refines` for the ops `specStep` covers: in a world satisfying WOk, an op that keeps to the contract does to the documented
-    model (`absW`) exactly what `specStep` says, and returns the same result -/
-theorem specStep_refines (w : World) (op : Op) (h : WOk w) (hin : inContract w op = true) (hc : op.covered = true) :
-    specStep (absW w) op = some (absW (step w op).1, (step w op).2) := by
-  cases op with
-  | addPkt l p =>
-    have hin' : (okL w l && keysDistinct p) = true := hin
-    simp only [Bool.and_eq_true] at hin'
-    simp only [specStep, step, liveL_absW]
-    cases hl : w.liveL l with
-    | none => rfl
-    | some pr =>
-      obtain ⟨e, s⟩ := pr
-      have hv : e.h.validB s.db = true := by
-        have := hin'.1; unfold okL at this; rw [hl] at this
-        simp only [Bool.and_eq_true] at this; exact this.2
-      have hg := (h.good.live (liveL_liveC hl)).db
-      obtain ⟨h1, h2⟩ := addPacket_spec s e.h p hg hv hin'.2
-      simp only [Option.map_some]
-      rw [← h1, ← h2]
-      simp only [Option.some.injEq, Prod.mk.injEq, and_true]
-      show ({ cifs := _, chs := _, lhs := _, its := _ } : AWorld) = { cifs := _, chs := _, lhs := _, its := _ }
-      congr 1
-      exact (absW_setCif w e.cif _).symm
-  | setCat l cat =>
-    simp only [specStep, step, liveL_absW]
-    cases hl : w.liveL l with
-    | none => rfl
-    | some pr =>
-      obtain ⟨e, s⟩ := pr
-      have hv : e.h.validB s.db = true := by
-        have : okL w l = true := hin
-        unfold okL at this; rw [hl] at this
-        simp only [Bool.and_eq_true] at this; exact this.2
-      have hg := (h.good.live (liveL_liveC hl)).db
-      obtain ⟨h1, h2, h3⟩ := setCategory_spec s e.h cat hg hv
-      simp only [Option.map_some]
-      rw [← h1, ← h2, ← h3]
-      simp only [Option.some.injEq, Prod.mk.injEq, and_true]
-      show ({ cifs := _, chs := _, lhs := _, its := _ } : AWorld) = { cifs := _, chs := _, lhs := _, its := _ }
-      congr 1
-      exact (absW_setCif w e.cif _).symm
-  | ldestroy l =>
-    simp only [specStep, step, liveL_absW]
-    cases hl : w.liveL l with
-    | none => rfl
-    | some pr =>
-      obtain ⟨e, s⟩ := pr
-      have hv : e.h.validB s.db = true := by
-        have : okL w l = true := hin
-        unfold okL at this; rw [hl] at this
-        simp only [Bool.and_eq_true] at this; exact this.2
-      have hg := (h.good.live (liveL_liveC hl)).db
-      obtain ⟨h1, h2⟩ := destroyLoop_spec s e.h hg hv
-      simp only [Option.map_some]
-      have hit : (absW w).itOnLh l = w.itOnLh l := rfl
-      rw [hit]
-      cases w.itOnLh l with
-      | true => rfl
-      | false =>
-        simp only [Bool.false_eq_true, if_false]
-        rw [← h1, ← h2]
-        simp only [Option.some.injEq, Prod.mk.injEq, and_true]
-        show ({ cifs := _, chs := _, lhs := _, its := _ } : AWorld) = { cifs := _, chs := _, lhs := _, its := _ }
-        congr 1
-        exact (absW_setCif w e.cif _).symm
-  | cifNew => simp only [specStep, step, absW, List.map_append]; rfl
-  | cifDel c =>
-    simp only [specStep, step, liveC_absW]
-    cases hl : w.liveC c with
-    | none => rfl
-    | some s =>
-      simp only [Option.map_some, Option.some.injEq, Prod.mk.injEq, and_true]
-      show ({ cifs := _, chs := _, lhs := _, its := _ } : AWorld) = { cifs := _, chs := _, lhs := _, its := _ }
-      congr 1
-      show (w.cifs.map _).set c none = (w.cifs.set c none).map _
-      rw [List.map_set]; rfl
-  | getBlock c n =>
-    simp only [specStep, step, liveC_absW]
-    cases hl : w.liveC c with
-    | none => rfl
-    | some s =>
-      simp only [Option.map_some]
-      have h1 := getBlock_fst s n
-      have h2 := getBlock_spec s n
-      rw [← h2]
-      simp only [Option.some.injEq, Prod.mk.injEq, and_true]
-      show ({ cifs := _, chs := _, lhs := _, its := _ } : AWorld) = { cifs := _, chs := _, lhs := _, its := _ }
-      congr 1
-      rw [h1]; exact (absW_setCif w c _).symm
-  | blocks c =>
-    simp only [specStep, step, liveC_absW]
-    cases hl : w.liveC c with
-    | none => rfl
-    | some s =>
-      simp only [Option.map_some, Option.some.injEq, Prod.mk.injEq]
-      refine ⟨?_, rfl⟩
-      show ({ cifs := _, chs := _, lhs := _, its := _ } : AWorld) = { cifs := _, chs := _, lhs := _, its := _ }
-      congr 1
-      exact (absW_setCif w c _).symm
-  | getFrame hh n =>
-    simp only [specStep, step, liveH_absW]
-    cases hl : w.liveH hh with
-    | none => rfl
-    | some pr =>
-      obtain ⟨e, s⟩ := pr
-      simp only [Option.map_some]
-      have h1 := getFrame_fst s e.h n
-      have h2 := getFrame_spec s e.h n
-      rw [← h2]
-      simp only [Option.some.injEq, Prod.mk.injEq, and_true]
-      show ({ cifs := _, chs := _, lhs := _, its := _ } : AWorld) = { cifs := _, chs := _, lhs := _, its := _ }
-      congr 1
-      rw [h1]; exact (absW_setCif w e.cif _).symm
-  | frames hh =>
-    simp only [specStep, step, liveH_absW]
-    cases hl : w.liveH hh with
-    | none => rfl
-    | some pr =>
-      obtain ⟨e, s⟩ := pr
-      simp only [Option.map_some, Option.some.injEq, Prod.mk.injEq]
-      refine ⟨?_, rfl⟩
-      show ({ cifs := _, chs := _, lhs := _, its := _ } : AWorld) = { cifs := _, chs := _, lhs := _, its := _ }
-      congr 1
-      exact (absW_setCif w e.cif _).symm
-  | code hh =>
-    simp only [specStep, step, liveH_absW]
-    cases hl : w.liveH hh with
-    | none => rfl
-    | some pr => rfl
-  | isBlock hh =>
-    simp only [specStep, step, liveH_absW]
-    cases hl : w.liveH hh with
-    | none => rfl
-    | some pr => rfl
-  | getCat l =>
-    simp only [specStep, step, liveL_absW]
-    cases hl : w.liveL l with
-    | none => rfl
-    | some pr => rfl
-  | cdestroy hh =>
-    simp only [specStep, step, liveH_absW]
-    cases hl : w.liveH hh with
-    | none => rfl
-    | some pr =>
-      obtain ⟨e, s⟩ := pr
-      have hv : e.h.validB s.db = true := by
-        have : okH w hh = true := hin
-        unfold okH at this; rw [hl] at this
-        simp only [Bool.and_eq_true] at this; exact this.2
-      have hg := (h.good.live (liveH_liveC hl)).db
-      obtain ⟨h1, h2⟩ := destroyContainer_spec s e.h hg hv
-      simp only [Option.map_some]
-      have hit : (absW w).itOnCh hh = w.itOnCh hh := rfl
-      rw [hit]
-      cases w.itOnCh hh with
-      | true => rfl
-      | false =>
-        simp only [Bool.false_eq_true, if_false]
-        rw [← h1, ← h2]
-        simp only [Option.some.injEq, Prod.mk.injEq, and_true]
-        show ({ cifs := _, chs := _, lhs := _, its := _ } : AWorld) = { cifs := _, chs := _, lhs := _, its := _ }
-        congr 1
-        exact (absW_setCif w e.cif _).symm
-  | names l =>
-    simp only [specStep, step, liveL_absW]
-    cases hl : w.liveL l with
-    | none => rfl
-    | some pr =>
-      obtain ⟨e, s⟩ := pr
-      have hv : e.h.validB s.db = true := by
-        have : okL w l = true := hin
-        unfold okL at this; rw [hl] at this
-        simp only [Bool.and_eq_true] at this; exact this.2
-      have hg := (h.good.live (liveL_liveC hl)).db
-      obtain ⟨h1, h2⟩ := getNames_spec s e.h hg hv
-      simp only [Option.map_some]
-      rw [← h2]
-      simp only [Option.some.injEq, Prod.mk.injEq]
-      refine ⟨?_, rfl⟩
-      show ({ cifs := _, chs := _, lhs := _, its := _ } : AWorld) = { cifs := _, chs := _, lhs := _, its := _ }
-      congr 1
-      rw [← h1]; exact (absW_setCif w e.cif _).symm
-  | catLoop hh cat =>
-    simp only [specStep, step, liveH_absW]
-    cases hl : w.liveH hh with
-    | none => rfl
-    | some pr =>
-      obtain ⟨e, s⟩ := pr
-      simp only [Option.map_some]
-      have h1 := getCategoryLoop_fst s e.h cat
-      have h2 := getCategoryLoop_spec s e.h cat
-      rw [← h2]
-      simp only [Option.some.injEq, Prod.mk.injEq, and_true]
-      show ({ cifs := _, chs := _, lhs := _, its := _ } : AWorld) = { cifs := _, chs := _, lhs := _, its := _ }
-      congr 1
-      rw [h1]; exact (absW_setCif w e.cif _).symm
-  | itemLoop hh n =>
-    simp only [specStep, step, liveH_absW]
-    cases hl : w.liveH hh with
-    | none => rfl
-    | some pr =>
-      obtain ⟨e, s⟩ := pr
-      simp only [Option.map_some]
-      have h1 := getItemLoop_fst s e.h n
-      have h2 := getItemLoop_spec s e.h n
-      rw [← h2]
-      simp only [Option.some.injEq, Prod.mk.injEq]
-      refine ⟨?_, rfl⟩
-      show ({ cifs := _, chs := _, lhs := _, its := _ } : AWorld) = { cifs := _, chs := _, lhs := _, its := _ }
-      congr 1
-      rw [h1]; exact (absW_setCif w e.cif _).symm
-  | prune hh =>
-    simp only [specStep, step, liveH_absW]
-    cases hl : w.liveH hh with
-    | none => rfl
-    | some pr =>
-      obtain ⟨e, s⟩ := pr
-      have hg := (h.good.live (liveH_liveC hl)).db
-      obtain ⟨h1, h2⟩ := prune_spec s e.h hg
-      simp only [Option.map_some]
-      rw [← h1, ← h2]
-      simp only [Option.some.injEq, Prod.mk.injEq, and_true]
-      show ({ cifs := _, chs := _, lhs := _, its := _ } : AWorld) = { cifs := _, chs := _, lhs := _, its := _ }
-      congr 1
-      exact (absW_setCif w e.cif _).symm
-  | mkBlock c n =>
-    simp only [specStep, step, liveC_absW]
-    cases hl : w.liveC c with
-    | none => rfl
-    | some s =>
-      have hb : w.cifBusy c = false := by
-        have : okC w c = true := hin
-        unfold okC at this; rw [hl] at this; simpa using this
-      have hg := (h.good.live hl).db
-      obtain ⟨h1, h2⟩ := createBlock_spec s n hg (h.autocommit hl hb)
-      simp only [Option.map_some]
-      rw [← h1, ← h2]
-      simp only [Option.some.injEq, Prod.mk.injEq, and_true]
-      show ({ cifs := _, chs := _, lhs := _, its := _ } : AWorld) = { cifs := _, chs := _, lhs := _, its := _ }
-      congr 1
-      exact (absW_setCif w c _).symm
-  | mkFrame hh n =>
-    simp only [specStep, step, liveH_absW]
-    cases hl : w.liveH hh with
-    | none => rfl
-    | some pr =>
-      obtain ⟨e, s⟩ := pr
-      have hin' : w.cifBusy e.cif = false ∧ e.h.validB s.db = true := by
-        have : okH w hh = true := hin
-        unfold okH at this; rw [hl] at this
-        simp only [Bool.and_eq_true, Bool.not_eq_true'] at this; exact this
-      have hg := (h.good.live (liveH_liveC hl)).db
-      obtain ⟨h1, h2⟩ := createFrame_spec s e.h n hg (h.autocommit (liveH_liveC hl) hin'.1) hin'.2
-      simp only [Option.map_some]
-      rw [← h1, ← h2]
-      simp only [Option.some.injEq, Prod.mk.injEq, and_true]
-      show ({ cifs := _, chs := _, lhs := _, its := _ } : AWorld) = { cifs := _, chs := _, lhs := _, its := _ }
-      congr 1
-      exact (absW_setCif w e.cif _).symm
-  | mkLoop hh cat names =>
-    simp only [specStep, step, liveH_absW]
-    cases hl : w.liveH hh with
-    | none => rfl
-    | some pr =>
-      obtain ⟨e, s⟩ := pr
-      have hin' : w.cifBusy e.cif = false ∧ e.h.validB s.db = true := by
-        have : okH w hh = true := hin
-        unfold okH at this; rw [hl] at this
-        simp only [Bool.and_eq_true, Bool.not_eq_true'] at this; exact this
-      have hg := (h.good.live (liveH_liveC hl)).db
-      obtain ⟨h1, h2⟩ := createLoop_spec s e.h cat names hg hin'.2
-      simp only [Option.map_some]
-      rw [← h1, ← h2]
-      simp only [Option.some.injEq, Prod.mk.injEq, and_true]
-      show ({ cifs := _, chs := _, lhs := _, its := _ } : AWorld) = { cifs := _, chs := _, lhs := _, its := _ }
-      congr 1
-      exact (absW_setCif w e.cif _).symm
-  | addItem l n v =>
-    simp only [specStep, step, liveL_absW]
-    cases hl : w.liveL l with
-    | none => rfl
-    | some pr =>
-      obtain ⟨e, s⟩ := pr
-      have hv : e.h.validB s.db = true := by
-        have : okL w l = true := hin
-        unfold okL at this; rw [hl] at this
-        simp only [Bool.and_eq_true] at this; exact this.2
-      have hg := (h.good.live (liveL_liveC hl)).db
-      simp only [Option.map_some]
-      cases n with
-      | none => rfl
-      | some nm =>
-        obtain ⟨h1, h2⟩ := addItem_spec s e.h (some nm) v hg hv
-        simp only []
-        rw [← h1, ← h2]
-        simp only [Option.some.injEq, Prod.mk.injEq, and_true]
-        show ({ cifs := _, chs := _, lhs := _, its := _ } : AWorld) = { cifs := _, chs := _, lhs := _, its := _ }
-        congr 1
-        exact (absW_setCif w e.cif _).symm
-  | getVal hh n =>
-    simp only [specStep, step, liveH_absW]
-    cases hl : w.liveH hh with
-    | none => rfl
-    | some pr =>
-      obtain ⟨e, s⟩ := pr
-      have hg := (h.good.live (liveH_liveC hl)).db
-      simp only [Option.map_some]
-      cases n with
-      | none => rfl
-      | some nm =>
-        have h1 := getValue_fst s e.h (some nm)
-        have h2 := getValue_spec s e.h (some nm) hg
-        simp only []
-        rw [← h2]
-        cases hr : getValue s e.h (some nm) with
-        | mk s1 r =>
-          rw [hr] at h1
-          simp only [] at h1
-          subst h1
-          cases r with
-          | error c =>
-            simp only [Option.some.injEq, Prod.mk.injEq, and_true]
-            show ({ cifs := _, chs := _, lhs := _, its := _ } : AWorld) = { cifs := _, chs := _, lhs := _, its := _ }
-            congr 1
-            exact (absW_setCif w e.cif _).symm
-          | ok va =>
-            obtain ⟨v, amb⟩ := va
-            simp only [Option.some.injEq, Prod.mk.injEq, and_true]
-            show ({ cifs := _, chs := _, lhs := _, its := _ } : AWorld) = { cifs := _, chs := _, lhs := _, its := _ }
-            congr 1
-            exact (absW_setCif w e.cif _).symm
-  | rmItem hh n =>
-    simp only [specStep, step, liveH_absW]
-    cases hl : w.liveH hh with
-    | none => rfl
-    | some pr =>
-      obtain ⟨e, s⟩ := pr
-      have hin' : w.cifBusy e.cif = false ∧ e.h.validB s.db = true := by
-        have : okH w hh = true := hin
-        unfold okH at this; rw [hl] at this
-        simp only [Bool.and_eq_true, Bool.not_eq_true'] at this; exact this
-      have hg := (h.good.live (liveH_liveC hl)).db
-      obtain ⟨h1, h2⟩ := removeItem_spec s e.h n hg (h.autocommit (liveH_liveC hl) hin'.1)
-      simp only [Option.map_some]
-      rw [← h1, ← h2]
-      simp only [Option.some.injEq, Prod.mk.injEq, and_true]
-      show ({ cifs := _, chs := _, lhs := _, its := _ } : AWorld) = { cifs := _, chs := _, lhs := _, its := _ }
-      congr 1
-      exact (absW_setCif w e.cif _).symm
-  | loops hh =>
-    simp only [specStep, step, liveH_absW]
-    cases hl : w.liveH hh with
-    | none => rfl
-    | some pr =>
-      obtain ⟨e, s⟩ := pr
-      have hg := (h.good.live (liveH_liveC hl)).db
-      obtain ⟨hdb1, hres⟩ := allLoops_spec s e.h
-      simp only [Option.map_some]
-      cases hr : allLoops s e.h with
-      | mk s1 r =>
-        rw [hr] at hdb1 hres
-        simp only [] at hdb1 hres
-        cases r with
-        | error c =>
-          simp only []
-          rw [← hres]
-          simp only [Option.some.injEq, Prod.mk.injEq, and_true]
-          show ({ cifs := _, chs := _, lhs := _, its := _ } : AWorld) = { cifs := _, chs := _, lhs := _, its := _ }
-          congr 1
-          rw [← hdb1]; exact (absW_setCif w e.cif s1).symm
-        | ok ls =>
-          simp only []
-          rw [← hres]
-          simp only []
-          -- the handles returned are valid
-          have hv : ∀ l ∈ ls, l.validB s.db = true := by
-            intro l hlm
-            have : Except.ok ls = specAllLoops (absS s.db) e.h := hres
-            unfold specAllLoops at this
-            split at this
-            · cases this
-            · simp only [Except.ok.injEq] at this
-              rw [this] at hlm
-              obtain ⟨y, hy, rfl⟩ := List.mem_map.mp hlm
-              obtain ⟨hym, hyc⟩ := List.mem_filter.mp hy
-              have hym' : y ∈ s.db.loops.map (absALoop s.db) := hym
-              obtain ⟨x, hx, rfl⟩ := List.mem_map.mp hym'
-              exact validB_of_mem s.db hg.inv x hx e.h.id (by simpa [absALoop] using hyc)
-          obtain ⟨f1, f2⟩ := foldNames_spec s.db hg ls hv (s1, []) hdb1
-          simp only [List.nil_append] at f2
-          simp only [Option.some.injEq, Prod.mk.injEq]
-          refine ⟨?_, congrArg (fun o => ({ rc := some CIF_OK, out := Out.loops o } : Result)) f2.symm⟩
-          show ({ cifs := _, chs := _, lhs := _, its := _ } : AWorld) = { cifs := _, chs := _, lhs := _, its := _ }
-          congr 1
-          have f1' : (List.foldl (fun (acc : Store × List (Option Str × Option (List Str))) l =>
-              match getNames acc.1 l with
-              | (s', .ok ns) => (s', acc.2 ++ [(l.category, some (ns.map (·.2)))])
-              | (s', .error _) => (s', acc.2 ++ [(l.category, none)])) (s1, []) ls).1.db = s.db := f1
-          rw [← f1']; exact (absW_setCif w e.cif _).symm
-  | _ => cases hc
 
 end CifModel.Store
